@@ -52,6 +52,8 @@ func commandMatrix(K string, full bool) []Op {
 		{"COPY", K, d}, {"COPY", K, d, "REPLACE"}, {"COPY", "ks", K}, {"COPY", "ks", K, "REPLACE"}, {"COPY", "kl", K, "REPLACE"}, {"COPY", "kh", K, "REPLACE"}, {"COPY", "kz", K, "REPLACE"}, {"COPY", K, K},
 		{"EXPIRE", K, "100"}, {"EXPIRE", K, "-1"}, {"PEXPIRE", K, "100000"}, {"EXPIREAT", K, "1893457000"}, {"PEXPIREAT", K, "1893457000000"}, {"EXPIRE", K, "150", "NX"}, {"EXPIRE", K, "150", "XX"}, {"EXPIRE", K, "150", "GT"}, {"EXPIRE", K, "150", "LT"}, {"EXPIRE", K, "50", "GT"}, {"EXPIRE", K, "50", "LT"},
 		{"PERSIST", K}, {"TTL", K}, {"PTTL", K}, {"EXPIRETIME", K}, {"PEXPIRETIME", K},
+		// patterns without any special character (the key's own name), with one, and through SCAN
+		{"KEYS", K}, {"KEYS", K + "*"}, {"KEYS", "k?"}, {"KEYS", "\\" + K}, {"SCAN", "0", "MATCH", K, "COUNT", "100"}, {"SCAN", "0", "MATCH", "k[a-z]", "COUNT", "100"}, {"EXISTS", K, K}, {"TOUCH", K}, {"RANDOMKEY"},
 		{"SORT", K}, {"SORT", K, "ALPHA"}, {"SORT", K, "ALPHA", "DESC"}, {"SORT", K, "ALPHA", "STORE", d}, {"SORT", K, "LIMIT", "0", "1", "ALPHA"}, {"SORT", K, "BY", "nosort"}, {"SORT", "kl", "ALPHA", "STORE", K},
 		{"SORT", "ksrt", "BY", "*", "ALPHA"}, {"SORT", "ksrt", "GET", "*", "ALPHA"}, {"SORT", "ksrt", "BY", "*", "GET", "#", "GET", "*", "ALPHA"}, {"SORT", "ksrt", "GET", "*", "ALPHA", "STORE", "kd"}, {"SORT", "ksrt", "BY", "kh->*", "GET", "kh->f", "ALPHA"},
 		// the destination of STORE is itself read by a GET / BY pattern: the result is built from the old values
@@ -136,6 +138,10 @@ func specC06(tier string) *SeqSpec {
 		c("HDEL", "kh", "f"), c("HDEL", "kh", "g"), c("SREM", "kz", "m"), c("SREM", "kz", "n2"), c("SMOVE", "kz", "kd", "m"), c("SDIFFSTORE", "kz", "kz", "kz"), c("SINTERSTORE", "kd", "kz", "kn"),
 		c("GETDEL", "ks"), c("EXPIRE", "kl", "0"), c("PEXPIRE", "kh", "20000"), c("PERSIST", "kz"), c("SORT", "kl", "ALPHA", "STORE", "kd"), c("SORT", "kz", "ALPHA", "STORE", "kd"), c("BITOP", "AND", "ks", "kn", "kn2"),
 		c("SET", "kl", "now-a-string"), c("LPUSH", "kn", "x"), c("HSET", "kn", "f", "v"), c("SADD", "kn", "x"),
+		// keys whose deadline has passed but which nothing has reclaimed yet: they do not exist any more, for
+		// KEYS / SCAN / EXISTS / TYPE / RANDOMKEY and for every command of the matrix
+		{Args: []string{"PEXPIRE", "ks", "1"}, Then: []Op{{Args: []string{"PING"}, Advance: 5}}}, {Args: []string{"PEXPIRE", "kl", "1"}, Then: []Op{{Args: []string{"PEXPIRE", "kh", "1"}}, {Args: []string{"PING"}, Advance: 5}}},
+		{Args: []string{"PEXPIRE", "kz", "2"}, Then: []Op{{Args: []string{"PEXPIRE", "ke", "2"}}, {Args: []string{"PING"}, Advance: 5}}}, c("EXPIRE", "ks", "-1"), c("EXPIREAT", "kh", "1"), c("PEXPIREAT", "kl", "1"),
 	}
 	// the key space itself as a table with a history: fill, drain in four orders, churn with colliding names
 	// (the removal counter and the table size go through every state; KEYS / DBSIZE / every key after each step)
@@ -226,6 +232,11 @@ func specC07(tier string) *SeqSpec {
 	}
 	for _, e := range [][]string{{"PX", "15552000000"}, {"PX", "315360000000"}, {"EX", "315360000"}, {"EX", "9223372037"}, {"PXAT", "4102444800000"}, {"EXAT", "32503680000"}} {
 		S = append(S, Op{Args: append([]string{"SET", "ks", "v"}, e...)}, Op{Args: append([]string{"SET", "kn", "v"}, e...)}, Op{Args: append([]string{"GETEX", "ks"}, e...)})
+	}
+	// writes of the value the key already holds are writes: a plain SET clears the deadline all the same
+	for _, same := range [][]string{{"SET", "ks", "10"}, {"SET", "ks", "10", "XX"}, {"SET", "ks", "10", "GET"}, {"GETSET", "ks", "10"}, {"MSET", "ks", "10"}, {"SET", "ks", "10", "KEEPTTL"}, {"SETRANGE", "ks", "0", "10"}, {"APPEND", "ks", ""}, {"SET", "ke", ""}, {"SETEX", "ks", "100", "10"},
+		{"LSET", "kl", "0", "e"}, {"HSET", "kh", "f", "1"}, {"SADD", "kz", "m"}, {"COPY", "ks", "ks2"}, {"RENAME", "ks", "ks"}, {"SUNIONSTORE", "kz", "kz"}, {"BITOP", "OR", "ks", "ks"}} {
+		S = append(S, Op{Args: same})
 	}
 	// absolute deadlines at the end of the number range
 	for _, k := range []string{"ks", "kn"} {
